@@ -29,7 +29,9 @@ type Violation struct {
 	Op   int
 }
 
-func (v Violation) String() string { return fmt.Sprintf("[%s] op#%d %s: %s", v.Prop, v.Op, v.Kind, v.Msg) }
+func (v Violation) String() string {
+	return fmt.Sprintf("[%s] op#%d %s: %s", v.Prop, v.Op, v.Kind, v.Msg)
+}
 
 type sfilter struct {
 	inst typed.TFilter // registered / unregistered by ops
@@ -43,13 +45,13 @@ type obsInst struct {
 }
 
 type queryInst struct {
-	open   bool
-	uq     *ecs.UnsafeQuery
-	tq     typed.TQuery
-	spec   *FSpec
-	seen   map[ecs.Entity]int
-	steps  int
-	cur    bool // positioned on an entity
+	open  bool
+	uq    *ecs.UnsafeQuery
+	tq    typed.TQuery
+	spec  *FSpec
+	seen  map[ecs.Entity]int
+	steps int
+	cur   bool // positioned on an entity
 }
 
 type firedRec struct {
@@ -60,19 +62,19 @@ type firedRec struct {
 
 // Drv drives one real world and monitors it against the shared model.
 type Drv struct {
-	Name string
-	W    *ecs.World
-	U    ecs.Unsafe
-	Cfg  Config
-	M    *Model
-	ID   [u.N]ecs.ID
-	Maps [u.N]u.MapT
-	tmaps map[int]typed.TMap
-	H    []ecs.Entity
-	ByH  map[ecs.Entity]EID
-	SF   []sfilter
-	Obs  []obsInst
-	Q    []queryInst
+	Name   string
+	W      *ecs.World
+	U      ecs.Unsafe
+	Cfg    Config
+	M      *Model
+	ID     [u.N]ecs.ID
+	Maps   [u.N]u.MapT
+	tmaps  map[int]typed.TMap
+	H      []ecs.Entity
+	ByH    map[ecs.Entity]EID
+	SF     []sfilter
+	Obs    []obsInst
+	Q      []queryInst
 	Custom [2]ecs.EventType
 
 	// ForceUnsafe makes the driver execute every op through the ID-based API,
@@ -126,6 +128,9 @@ type Stats struct {
 	ZeroChecks   int64
 	Misuse       map[string]int64
 	EvSeen       [NEv]int64
+	GCOrphans    int64
+	GCCollected  int64
+	GCChecks     int64
 }
 
 func NewStats() *Stats {
